@@ -1343,10 +1343,72 @@ XSLTEngineImpl::addResultAttribute(
 
         if (fExcludeAttribute == false)
         {
+            const XalanDOMString::size_type     theColonIndex =
+                indexOf(aname, XalanUnicode::charColon);
+
+            if (theColonIndex < aname.length() &&
+                startsWith(aname, DOMServices::s_XMLNamespaceWithSeparator) == false)
+            {
+                // The attribute replaces any attribute with the same expanded
+                // name, which may be present with another prefix that is bound
+                // to the same namespace...
+                removeAttributeWithOtherPrefix(attList, aname, theColonIndex);
+            }
+
             attList.addAttribute(
                 aname.c_str(),
                 Constants::ATTRTYPE_CDATA.c_str(),
                 value);
+        }
+    }
+}
+
+
+
+void
+XSLTEngineImpl::removeAttributeWithOtherPrefix(
+            AttributeListImpl&          attList,
+            const XalanDOMString&       aname,
+            XalanDOMString::size_type   theColonIndex)
+{
+    assert(m_executionContext != 0);
+
+    const ECGetCachedString     prefixGuard(*m_executionContext);
+
+    XalanDOMString&     prefix = prefixGuard.get();
+
+    substring(aname, prefix, 0, theColonIndex);
+
+    const XalanDOMString* const     theNamespace =
+        getResultNamespaceForPrefix(prefix);
+
+    if (theNamespace != 0)
+    {
+        const XalanDOMChar* const   theLocalName =
+            aname.c_str() + theColonIndex + 1;
+
+        for (XalanSize_t i = attList.getLength(); i > 0; --i)
+        {
+            const XalanDOMChar* const           theOtherName = attList.getName(i - 1);
+            const XalanDOMString::size_type     theOtherLength = length(theOtherName);
+            const XalanDOMString::size_type     theOtherColonIndex =
+                indexOf(theOtherName, XalanUnicode::charColon);
+
+            if (theOtherColonIndex < theOtherLength &&
+                equals(theOtherName + theOtherColonIndex + 1, theLocalName) == true &&
+                equals(theOtherName, aname.c_str()) == false)
+            {
+                prefix.assign(theOtherName, theOtherColonIndex);
+
+                const XalanDOMString* const     theOtherNamespace =
+                    getResultNamespaceForPrefix(prefix);
+
+                if (theOtherNamespace != 0 &&
+                    *theOtherNamespace == *theNamespace)
+                {
+                    attList.removeAttribute(theOtherName);
+                }
+            }
         }
     }
 }
